@@ -615,3 +615,139 @@ func checkMaybeNilUses(c *Ctx, p ssa.Value, defBlock *ssa.BasicBlock, errv ssa.V
 	}
 	return bad
 }
+
+func init() {
+	register(&Rule{
+		Name:  "LIST-READ-GUARD",
+		Floor: 1,
+		Doc:   "a PostingsList that was (re)initialised but not read - the result of a lookup in the dictionary of an unknown field, or of an absent term, into a caller's reusable list - has no segment behind it (sb is whatever the dictionary had: nil for the empty dictionary) and keeps the emptied bitmap of its previous use for reuse. A method of PostingsList therefore dereferences p.sb only where the list is known to have been read: under a test of p.sb itself, of the bitmap's CONTENT (IsEmpty / cardinality) or of the 1-hit marker - a nil test of the bitmap alone says nothing about a recycled list",
+		Run: func(c *Ctx, scope string, r *Report) {
+			pl := c.NamedType("PostingsList").Obj()
+			isFieldLoadOf := func(v ssa.Value, base ssa.Value, name string) bool {
+				ld, ok := v.(*ssa.UnOp)
+				if !ok || ld.Op != token.MUL {
+					return false
+				}
+				fa, ok := ld.X.(*ssa.FieldAddr)
+				if !ok || fa.X != base {
+					return false
+				}
+				_, f := fieldAddrInfo(fa)
+				return f != nil && f.Name() == name
+			}
+			// knownRead: block b of fn is entered only when list (a *PostingsList parameter of fn)
+			// is known to have been read - by a test in fn, or because every caller hands fn its
+			// own list only where that is known
+			var knownRead func(fn *ssa.Function, list *ssa.Parameter, b *ssa.BasicBlock, depth int) bool
+			knownRead = func(fn *ssa.Function, list *ssa.Parameter, b *ssa.BasicBlock, depth int) bool {
+				for _, hb := range fn.Blocks {
+					ifi, ok := hb.Instrs[len(hb.Instrs)-1].(*ssa.If)
+					if !ok {
+						continue
+					}
+					var edge *ssa.BasicBlock
+					switch x := ifi.Cond.(type) {
+					case *ssa.BinOp:
+						other, field := x.Y, x.X
+						if isNilConst(field) || isZeroConst(field) {
+							other, field = field, other
+						}
+						switch {
+						case isFieldLoadOf(field, list, "sb") && isNilConst(other), isFieldLoadOf(field, list, "normBits1Hit") && isZeroConst(other):
+							if x.Op == token.NEQ {
+								edge = hb.Succs[0]
+							} else if x.Op == token.EQL {
+								edge = hb.Succs[1]
+							}
+						default:
+							if call, ok := stripConv(field).(*ssa.Call); ok && isZeroConst(other) && call.Call.StaticCallee() != nil && call.Call.StaticCallee().Name() == "GetCardinality" && isFieldLoadOf(call.Call.Args[0], list, "postings") {
+								switch x.Op {
+								case token.NEQ, token.GTR:
+									edge = hb.Succs[0]
+								case token.EQL:
+									edge = hb.Succs[1]
+								}
+							}
+						}
+					case *ssa.Call:
+						sc := x.Call.StaticCallee()
+						if sc != nil && sc.Name() == "IsEmpty" && len(x.Call.Args) > 0 && isFieldLoadOf(x.Call.Args[0], list, "postings") {
+							edge = hb.Succs[1]
+						}
+						// a predicate method of the list that is true for every list that was not read:
+						// it returns true whenever the bitmap is nil or empty
+						if sc != nil && c.inRoot(sc) && len(x.Call.Args) > 0 && x.Call.Args[0] == ssa.Value(list) && emptyListPredicate(sc, isFieldLoadOf) {
+							edge = hb.Succs[1]
+						}
+					}
+					if edge != nil && len(edge.Preds) == 1 && (edge == b || edge.Dominates(b)) {
+						return true
+					}
+				}
+				if depth >= 2 {
+					return false
+				}
+				sites := c.callsTo(fn)
+				if len(sites) == 0 {
+					return false
+				}
+				for _, site := range sites {
+					ap, ok := argFor(site.Common(), list).(*ssa.Parameter)
+					if !ok || !knownRead(site.Parent(), ap, site.Block(), depth+1) {
+						return false
+					}
+				}
+				return true
+			}
+			for _, fn := range c.srcFns {
+				if fnName(fn) == "(*PostingsList).read" {
+					continue // fills the list from a dictionary that has an FST, hence a segment
+				}
+				for _, list := range fn.Params {
+					if n := namedOf(list.Type()); n == nil || n.Obj() != pl {
+						continue
+					}
+					if _, isPtr := list.Type().Underlying().(*types.Pointer); !isPtr {
+						continue
+					}
+					for _, b := range fn.Blocks {
+						for _, ins := range b.Instrs {
+							fa, ok := ins.(*ssa.FieldAddr)
+							if !ok || !isFieldLoadOf(fa.X, list, "sb") {
+								continue
+							}
+							key := fnName(fn) + "/deref-sb"
+							if knownRead(fn, list, b, 0) {
+								r.ok(key, fnName(fn), c.pos(fa.Pos()), "the list's sb is dereferenced only where the list is known to have been read")
+							} else {
+								r.bad(key, fnName(fn), c.pos(fa.Pos()), "p.sb is dereferenced where the list may be a recycled one that was not read (unknown field / absent term with a caller-supplied list: sb is nil, the bitmap is the emptied one of the previous use, so a nil test of the bitmap does not stop it): nil pointer dereference")
+							}
+						}
+					}
+				}
+			}
+		},
+	})
+}
+
+// emptyListPredicate: m is a method of PostingsList without further
+// parameters that returns true on every path on which the bitmap is nil or
+// empty (so its false edge establishes a non-empty, i.e. read, list):
+// its body tests postings for nil and IsEmpty/GetCardinality, nothing else.
+func emptyListPredicate(m *ssa.Function, isFieldLoadOf func(ssa.Value, ssa.Value, string) bool) bool {
+	if m.Blocks == nil || len(m.Params) != 1 || m.Signature.Results().Len() != 1 || m.Signature.Results().At(0).Type().String() != "bool" {
+		return false
+	}
+	hasContent := false
+	for _, b := range m.Blocks {
+		for _, ins := range b.Instrs {
+			if call, ok := ins.(*ssa.Call); ok {
+				sc := call.Call.StaticCallee()
+				if sc != nil && (sc.Name() == "IsEmpty" || sc.Name() == "GetCardinality") && len(call.Call.Args) > 0 && isFieldLoadOf(call.Call.Args[0], m.Params[0], "postings") {
+					hasContent = true
+				}
+			}
+		}
+	}
+	return hasContent
+}
